@@ -9,8 +9,8 @@ from . import common
 from .model import runs_of
 
 GFLAV = {
-    0: dict(name='int-T-1', ids=[0, 1, 2, 3], T0=-1),      # instants straddle 0
-    1: dict(name='str-T7', ids=['b', 'a', 'c', 'd'], T0=7),
+    0: dict(name='int-T-2', ids=[0, 1, 2, 3], T0=-2),      # with 4 instants: -2..1 — two negative ids, 0 interior
+    1: dict(name='str-T8', ids=['b', 'a', 'c', 'd'], T0=8),   # 8, 9, 10: the ids change their number of digits
     2: dict(name='int10-T-3', ids=[12, 10, 11, 13], T0=-3),
 }
 
